@@ -663,6 +663,7 @@ class Session:
         self.wait_before_continuing: asyncio.Future[None] | None = None
         self.completed = False
         self.ctkd_task: Awaitable[None] | None = None
+        self.ctkd_link_key_authenticated = False
 
         # Decide if we're the initiator or the responder
         self.is_initiator = is_initiator
@@ -1109,6 +1110,17 @@ class Session:
         self.link_key = await self.manager.device.get_link_key(
             self.connection.peer_address
         )
+        # Keys derived from the link key are only as authenticated as the link key
+        if self.link_key is not None and self.manager.device.keystore is not None:
+            stored_keys = await self.manager.device.keystore.get(
+                str(self.connection.peer_address)
+            )
+            self.ctkd_link_key_authenticated = (
+                stored_keys is not None
+                and stored_keys.link_key is not None
+                and stored_keys.link_key.value == self.link_key
+                and stored_keys.link_key.authenticated
+            )
         if self.link_key is None:
             logging.warning(
                 'Try to derive LTK but host does not have the LK. Send a SMP_PAIRING_FAILED but the procedure will not be paused!'
@@ -1321,7 +1333,11 @@ class Session:
         # Create an object to hold the keys
         keys = PairingKeys()
         keys.address_type = peer_address.address_type
-        authenticated = self.pairing_method != PairingMethod.JUST_WORKS
+        if self.pairing_method == PairingMethod.CTKD_OVER_CLASSIC:
+            # No association model ran: inherit from the BR/EDR link key
+            authenticated = self.ctkd_link_key_authenticated
+        else:
+            authenticated = self.pairing_method != PairingMethod.JUST_WORKS
         if self.sc or self.connection.transport == PhysicalTransport.BR_EDR:
             keys.ltk = PairingKeys.Key(value=self.ltk, authenticated=authenticated)
         else:
